@@ -631,7 +631,8 @@ EXPLAIN = ("The PAM module succeeds only on an explicit OK — structural part d
            "min(ntohs(len), MAX) bytes are read into it; the socket path copy is bounded by sizeof; no unbounded copy functions; (C20.3 = C13.4) the request is "
            "user, password, \"\", \"\" in this order, each sent as htons(min(strlen, 256)) in a 2-byte field followed by that many bytes, and the C limit equals the "
            "Go codec's MaxRequestLength; (C20.4) every read/write on the socket is preceded in its loop iteration by select() with a timeout from ctx->timeout_, a zero "
-           "return of select leaves the function, and the timeout option only accepts positive values; (C20.5) every exit of pam_sm_authenticate passes _whawty_cleanup, "
+           "return of select leaves the function, every iteration that goes round again has transferred a non-zero count (a 0-byte read/write leaves the loop; no errno test in its place), "
+           "and the timeout option only accepts positive values; (C20.5) every exit of pam_sm_authenticate passes _whawty_cleanup, "
            "which overwrites the password before dropping it and closes a non-negative socket.")
 UNDEC = ["run-time behaviour of the compiled module against real servers", "timing (wall-clock bounds)", "memory safety at the level of a sanitizer run",
          "host-process state outside the property's quantifier (observed, not findings: the EINTR test in both select loops is inverted so a persistent non-EINTR select error spins; FD_SET is used without an FD_SETSIZE check)"]
